@@ -423,6 +423,14 @@ struct Config
             std::vector<std::size_t> slots;
             for (std::size_t i = 0; i < v.size(); ++i) slots.push_back(ea.data()[i]);
             os << " loc=var:" << join(slots) << "/" << (PeekVar::last(loc) - base) << " tbl=" << blk_of(ea.data());
+            // the offset table is memory of this vector too: it has to come from the vector's own allocator (or an equal one)
+            if (auto* tb = hv::Ledger::get().find(reinterpret_cast<const std::byte*>(ea.data())))
+            {
+                if (tb->alloc_id != v.get_allocator().id && !AllocT::is_always_equal::value)
+                    violation("C08:table-owned-by-unequal-allocator v" + std::to_string(k) + " tbl_alloc=" + std::to_string(tb->alloc_id) +
+                              " get_allocator=" + std::to_string(v.get_allocator().id));
+                if (!tb->live) violation("C07:vector-uses-freed-table v" + std::to_string(k));
+            }
         }
         // elements
         std::uintptr_t prev_elem_end = reinterpret_cast<std::uintptr_t>(base);
